@@ -63,6 +63,13 @@ def gen(rng, n):
             if rng.random() < 0.5:
                 nodes.append(['f', ('/altd_files' if which == 'files' else '/altd/files') + '/orphan', 'no info'])
             argv += ['--trash-dir', '/altd']
+        elif rng.random() < 0.12:
+            # a trash directory whose ONLY entry is an empty directory (trashed empty, or a payload lacking its .trashinfo): removing it
+            # empties files/ - which stays, as announced
+            nodes += [['d', '/solo/info', 0o700], ['d', '/solo/files/emptydir', 0o755]]
+            if rng.random() < 0.6:
+                nodes.append(['f', '/solo/info/emptydir.trashinfo', scen.TI % ('/was/emptydir', rng.choice(scen.DATES))])
+            argv += ['--trash-dir', '/solo']
         base = {'cmd': 'empty', 'env': env, 'now': [2024, 6, 1, 12, 0, 0, 0], 'listdir': rng.choice(['sorted', 'reverse', rng.randint(1, 99)])}
         reply = None
         if mode == 'dry':
